@@ -183,6 +183,21 @@ func c15(c *core.Ctx) {
 						okVal = n == 2 && len(got) == 2
 					}
 				}
+				// the entry built by a private constructor step given the two parameters (newService(desc, h))
+				if call, isCall := mu.Value.(*ssa.Call); isCall && !okVal {
+					if cal := call.Call.StaticCallee(); cal != nil && cal.Blocks != nil {
+						if st, isS := cal.Signature.Results().At(0).Type().Underlying().(*types.Struct); isS && cal.Signature.Results().Len() == 1 {
+							n := 0
+							for i := 0; i < st.NumFields(); i++ {
+								fv := core.CtorFieldValue(call, i)
+								if fv == ssa.Value(descPar) || fv == ssa.Value(hPar) {
+									n++
+								}
+							}
+							okVal = n == 2 && st.NumFields() == 2
+						}
+					}
+				}
 				c.Check(okVal, key+":stores-params", mu.Pos(), "the stored entry holds the desc and handler parameters unmodified", "the stored entry does not hold exactly the desc and handler parameters")
 				// failing edges panic
 				for _, ef := range core.EdgeFactsOf(regFn) {
